@@ -11,6 +11,7 @@ import (
 	"math/rand/v2"
 	"os"
 	"path/filepath"
+	"reflect"
 	"runtime"
 	"sort"
 	"strconv"
@@ -339,7 +340,7 @@ func (r *Run) Violation(sig, desc string, c any) {
 	path := filepath.Join(dir, name)
 	body := map[string]any{
 		"property": r.ID, "stage": r.Stage, "tier": r.Tier, "seed": r.Seed,
-		"sig": sig, "desc": desc, "case": c,
+		"sig": sig, "desc": desc, "case": encodeRaw(reflect.ValueOf(c)),
 	}
 	b, err := json.MarshalIndent(body, "", " ")
 	if err != nil {
@@ -499,5 +500,9 @@ func ReplayCase(stage string, into any) (ok bool, err error) {
 	if env.Stage != stage {
 		return false, nil
 	}
-	return true, json.Unmarshal(env.Case, into)
+	if err = json.Unmarshal(env.Case, into); err != nil {
+		return true, err
+	}
+	decodeRaw(reflect.ValueOf(into))
+	return true, nil
 }
